@@ -25,6 +25,73 @@ WRITE_VARIANTS = ["crash", "crash_half", "crash_q3", "crash_most", "enospc", "ef
 CLOSE_VARIANTS = ["crash", "crash_half", "crash_most", "enospc", "efbig_half"]
 
 
+MODEL_SCENARIOS = ("S1-first-memoize", "S2-second-fn-same-bytes", "S4-rememoize-after-forget")     # calls of f and g only
+
+
+def role_of(path):
+    """which file of the protocol a path under the store root is: (obj|ptr, c|m) or None"""
+    parts = path.split("/")
+    if parts[0] == "c":
+        if len(parts) == 2 and parts[1].endswith(".link"):
+            return "p_c"
+        if len(parts) == 4 and parts[1] == ".versions":
+            return "o_c"
+    if parts[0] == "m":
+        if len(parts) == 3 and parts[2].endswith(".memento.json.link"):
+            return "p_m"
+        if len(parts) == 5 and parts[2] == ".versions" and parts[4].endswith(".memento.json"):
+            return "o_m"
+    return None
+
+
+def mech_events(t):
+    """the recorded file-system steps of one run as events of TraceFsWrite (mechanism-level trace validation)"""
+    evs = []
+    ex = {"f": 0, "g": 0}
+    for call, ot, ev in zip(t["job"]["calls"], t["optraces"], t["ev"]):
+        name, a = call
+        if name == "list":
+            continue
+        if name == "forget":
+            evs.append({"k": "forget", "fn": a[0]})
+            continue
+        evs.append({"k": "begin", "fn": name})
+        trace = ot["trace"]
+        upto = ot["fired_at"] if ot["fired_at"] is not None else len(trace)
+
+        def code(kind, path):
+            if kind == "os.mkdir":
+                return "mkdir"
+            ro = role_of(path)
+            if ro is None:
+                return None
+            return {"open_w": "o", "write": "w", "close_w": "c", "flush_w": "c"}.get(kind, "?") + ro
+        for kind, path in trace[:upto]:
+            c = code(kind, path)
+            if c:
+                evs.append({"k": c})
+        if ot["fired_at"] is not None:
+            variant = ev.get("variant", "")
+            fk = ot["fired_kind"]
+            # the path of the operation that was hit is the next entry the fault-free run would have made: take it
+            # from the op list of the worker (the fired op is the last entry of oplists)
+            hit = t["oplists"][len(evs_calls(evs)) - 1][-1] if t.get("oplists") else ""
+            kind_, _, path_ = hit.partition(" ")
+            at = code(kind_, path_)
+            partial = variant.split("_")[-1] in ("half", "q3", "most") and at in ("wp_c", "cp_c", "wp_m", "cp_m")
+            evs.append({"k": "crash" if variant.startswith("crash") else "ioerr", "at": at or "?", "half": bool(partial)})
+        for k, n in ev.get("bodies", []):
+            fn = k.split("/")[0]
+            if fn in ex:
+                ex[fn] += n
+        evs.append({"k": "end", "fn": name, "exf": ex["f"], "exg": ex["g"], "raised": bool(ev.get("exc"))})
+    return evs
+
+
+def evs_calls(evs):
+    return [e for e in evs if e["k"] in ("begin", "forget")]
+
+
 def run(prop, tier):
     rep = Report(prop, tier, level="fault_enumeration")
     quick = tier == "quick"
@@ -39,7 +106,7 @@ def run(prop, tier):
         for name, pre, fc, post in SCENARIOS:
             for b in budgets:
                 for buffered in (False, True):
-                    probes.append({"cfg": {"budget": b, "scenario": name, "buffered": buffered}, "want_ops": True,
+                    probes.append({"cfg": {"budget": b, "scenario": name, "buffered": buffered}, "want_ops": True, "want_trace": True,
                                    "calls": pre + [fc] + post, "faults": []})
         base = common.run_jobs("fault_worker.py", probes, wd)
         jobs = []
@@ -54,7 +121,8 @@ def run(prop, tier):
                 variants = WRITE_VARIANTS if desc.startswith("write ") else \
                     CLOSE_VARIANTS if desc.startswith(("close_w ", "flush_w ")) else OP_VARIANTS
                 for v in variants:
-                    jobs.append({"cfg": pj["cfg"], "calls": pj["calls"], "faults": [{"call": ci, "op": k, "variant": v}]})
+                    jobs.append({"cfg": pj["cfg"], "calls": pj["calls"], "faults": [{"call": ci, "op": k, "variant": v}],
+                                 "want_trace": name in MODEL_SCENARIOS, "want_ops": name in MODEL_SCENARIOS})
         single = common.run_jobs("fault_worker.py", jobs, wd, timeout=1800)
         traces = list(base) + list(single)
         common.tick("single faults: %d runs" % len(single))
@@ -65,7 +133,7 @@ def run(prop, tier):
             n1 = t["opcounts"][ci + 1] if ci + 1 < len(t["opcounts"]) else 0
             for k2 in range(1, n1 + 1):
                 for v2 in (["crash", "enospc"] if not quick else ["crash"]):
-                    jobs2.append({"cfg": j["cfg"], "calls": j["calls"],
+                    jobs2.append({"cfg": j["cfg"], "calls": j["calls"], "want_trace": j.get("want_trace"), "want_ops": j.get("want_ops"),
                                   "faults": [j["faults"][0], {"call": ci + 1, "op": k2, "variant": v2}]})
         if quick:
             jobs2 = jobs2[:: max(1, len(jobs2) // 400)]
@@ -77,6 +145,25 @@ def run(prop, tier):
         rep.cov["fault_free_operation_list_S1_buffered"] = oplists.get("S1-first-memoize/buffered", [])
         rej, vr = tlc.validate_traces("TraceCrashSafe", payload, wd, timeout=1500)
         rep.add_tlc(vr, "trace validation TraceCrashSafe")
+        # mechanism-level conformance: the recorded file-system steps of the runs of f / g are behaviours of FsWrite.tla
+        mech = [t for t in traces if t["cfg"].get("scenario") in MODEL_SCENARIOS and t.get("optraces") and t["cfg"].get("budget", 0) == 0]
+        mpayload = [{"cfg": {"x": 0}, "ev": mech_events(t)} for t in mech]
+        mrej, mvr = tlc.validate_traces("TraceFsWrite", mpayload, wd, timeout=1500)
+        rep.add_tlc(mvr, "mechanism trace validation TraceFsWrite (recorded file-system steps are behaviours of FsWrite.tla)")
+        rep.cov["mechanism_traces"] = len(mpayload)
+        rep.cov["mechanism_events"] = sum(len(p["ev"]) for p in mpayload)
+        rep.cov["nonconformances"] = len(mrej)
+        if mrej:
+            print("NONCONFORMANCE: %d of %d recorded runs are not behaviours of FsWrite.tla (informational)" % (len(mrej), len(mpayload)))
+            for rj in mrej[:3]:
+                t = mech[rj["tid"] - 1]
+                evs_ = mpayload[rj["tid"] - 1]["ev"]
+                print("  scenario=%s buffered=%s faults=%s explained=%d/%d next=%s" % (
+                    t["cfg"].get("scenario"), t["cfg"].get("buffered"), t["job"]["faults"], rj["prefix"], len(evs_),
+                    json.dumps(evs_[rj["prefix"]:rj["prefix"] + 2])))
+            rep.cov["nonconformance_notes"] = [{"scenario": mech[rj["tid"] - 1]["cfg"].get("scenario"), "faults": mech[rj["tid"] - 1]["job"]["faults"],
+                                                "explained": rj["prefix"], "next": mpayload[rj["tid"] - 1]["ev"][rj["prefix"]:rj["prefix"] + 2]}
+                                               for rj in mrej[:5]]
         rep.cov["traces_validated_against_impl"] = len(traces)
         rep.cov["evaluations"] = len(traces)
         rep.cov["distinct_nontrivial"] = len({json.dumps(t["job"]["faults"]) + t["cfg"].get("scenario", "") + str(t["cfg"].get("budget")) + str(t["cfg"].get("buffered")) for t in traces})
